@@ -7,7 +7,7 @@ From Coq Require Import QArith Qabs Sorted Permutation Lia.
 From CKT Require Import Common.Base Common.Circ Model.Decompose Model.Measurement Model.Observables Model.Grouping
   Model.Experiments Proofs.DecomposeP Proofs.ExperimentsP.
 From CKT Require Extracted.Facts Model.Weights Proofs.WeightsP Proofs.WeightsGen Proofs.WeightsTab Proofs.WeightsSort
-  Proofs.GroupingP.
+  Proofs.GroupingP Proofs.RoundtripP.
 Close Scope Q_scope.
 
 (* ====================================================================== *)
@@ -263,4 +263,174 @@ Proof.
   exists m. split; [exact Hm|]. rewrite <- (Nat2Z.id m).
   apply (assign_member env (mdata qc) ids (map Z.of_nat ms) [pos] (Z.of_nat m) pos x Hv); [|now left|exact Hx].
   now apply In_combine_map.
+Qed.
+
+(* ====================================================================== *)
+(* F. corrections after the proof audit                                    *)
+(* ====================================================================== *)
+(* the sign law on the coefficients `core` returns (any dictionary with positive weights) *)
+Theorem sign_core gh gsx env C table og W out coeffs :
+  core gh gsx env C table og W = Ok (out, coeffs) ->
+  (forall v, In v C -> ~ (kappa_of v == 0)%Q) ->
+  (forall s, In s W -> (0 < s_w s)%Q) ->
+  Forall2 (fun s c => exists cs, chosen_coeffs C (s_ids s) = Ok cs /\ qsign (fst c) = qsign (prodQ cs))
+          (sort_samples W) coeffs.
+Proof.
+  intros Hc Hk Hpos. pose proof (core_coeffs _ _ _ _ _ _ _ _ _ Hc) as HF. clear Hc.
+  assert (Hin : forall s, In s (sort_samples W) -> In s W)
+    by (intros s Hs; eapply Permutation_in; [apply Permutation_sym, sort_perm|exact Hs]).
+  assert (Htot : forall s, In s W -> (0 < total_weight W)%Q).
+  { intros s Hs. rewrite total_weight_eq. apply sumQ_pos; [intros E; rewrite E in Hs; destruct Hs|exact Hpos]. }
+  revert Hin. induction HF as [|s c S cf (cs & Hcs & ->) HF IH]; intros Hin; constructor.
+  - exists cs. split; [exact Hcs|]. cbn [fst]. apply sign_coeff.
+    + apply Hpos, Hin. now left.
+    + apply (Htot s), Hin. now left.
+    + now apply kappa_all_pos.
+  - apply IH. intros s' Hs'. apply Hin. now right.
+Qed.
+
+(* exact_weights does not depend on the order of the dictionary *)
+Lemma exact_weights_perm C W W' : Permutation W W' -> exact_weights C W -> exact_weights C W'.
+Proof.
+  intros HP (Hnd & Hin & Hall). split; [|split].
+  - eapply Permutation_NoDup; [apply Permutation_map, HP|exact Hnd].
+  - intros s Hs. apply Hin. eapply Permutation_in; [apply Permutation_sym, HP|exact Hs].
+  - intros ids Hi Hnz. eapply Permutation_in; [apply Permutation_map, HP|]. now apply Hall.
+Qed.
+
+(* infinite budget, exactness: when no joint map has a probability strictly between 0 and the cut-off, the dictionary
+   generate_qpd_weights returns (final_sort of the C04 model's result) satisfies exact_weights, and every
+   coefficient `core` returns EQUALS the product of its maps' coefficients *)
+Theorem inf_budget_exact gh gsx env C table og perms tape r out coeffs :
+  (forall v, In v C -> ~ (kappa_of v == 0)%Q) ->
+  Forall (fun v => exists x, In x v /\ (Facts.nonzero_atol < x)%Q) (probs_of C) ->
+  RoundtripP.no_subcutoff_map C ->
+  Weights.gen_weights (probs_of C) perms Weights.PInf tape = Some (Ok r) ->
+  let W := of_wdict (Weights.final_sort r) in
+  exact_weights C W /\
+  (core gh gsx env C table og W = Ok (out, coeffs) ->
+   Forall2 (fun s c => exists cs, chosen_coeffs C (s_ids s) = Ok cs /\ (fst c == prodQ cs)%Q) (sort_samples W) coeffs).
+Proof.
+  intros Hk Hbig Hno Hg W.
+  rewrite (WeightsGen.infinite_budget (probs_of C) perms tape (probs_of_nonneg' C) Hbig) in Hg.
+  inversion Hg; subst r; clear Hg.
+  assert (HW : exact_weights C W).
+  { eapply exact_weights_perm; [|apply (RoundtripP.all_exact_is_exact_weights C Hno)].
+    unfold W, of_wdict. apply Permutation_map, Permutation_sym, WeightsSort.final_sort_perm. }
+  split; [exact HW|]. intros Hc. pose proof (core_coeffs _ _ _ _ _ _ _ _ _ Hc) as HF. clear Hc.
+  assert (Hin : forall s, In s (sort_samples W) -> In s W)
+    by (intros s Hs; eapply Permutation_in; [apply Permutation_sym, sort_perm|exact Hs]).
+  revert Hin. induction HF as [|s c S cf (cs & Hcs & ->) HF IH]; intros Hin; constructor.
+  - exists cs. split; [exact Hcs|]. cbn [fst]. apply (exact_coeff C W s cs Hk HW); [apply Hin; now left|exact Hcs].
+  - apply IH. intros s' Hs'. apply Hin. now right.
+Qed.
+
+(* ---------------- totality of generate (separated form) ---------------- *)
+Definition circuit_ok (qc : mcirc) : Prop :=
+  existsb fst (mcregs qc) = false /\
+  forall x, In x (mdata qc) -> is_qpd2 x = false /\ suffix_of x <> Some None.
+Definition group_ok (qc : mcirc) (g : ogroup) : Prop :=
+  length (og_general g) = mnq qc /\ forall s, In s (pauli_indices_or_dummy (og_indices g)) -> s < mnq qc.
+(* a joint map selects a coefficient in every basis, and for every placeholder its cut id indexes the joint map at an
+   id that is in range for the placeholder's own basis *)
+Definition sample_ok (env : benv) (C : list (list Q)) (d : list (nat * mcirc)) (ids : jkey) : Prop :=
+  (exists cs, chosen_coeffs C ids = Ok cs) /\
+  forall x k b, In x (all_instrs d) -> cut_of x = Some (k, b) ->
+    exists m, nth_error ids k = Some m /\ m < length (nth b env []).
+
+Lemma alookup_In {V} (d : list (nat * V)) l v : alookup d l = Some v -> In (l, v) d.
+Proof.
+  induction d as [|[l0 v0] d IH]; cbn [alookup]; [discriminate|].
+  destruct (Nat.eqb_spec l l0) as [->|]; [intros H; inversion H; now left|intros H; right; auto].
+Qed.
+
+Lemma project_total joint : forall sfx,
+  (forall k, In k sfx -> exists m, nth_error joint k = Some m) -> exists ms, project joint sfx = Ok ms.
+Proof.
+  induction sfx as [|k r IH]; intros H; [eexists; reflexivity|]. cbn [project].
+  destruct (H k (or_introl eq_refl)) as (m & ->). destruct IH as (ms & ->); [intros; apply H; now right|].
+  eexists; reflexivity.
+Qed.
+
+Theorem generate_total gh gsx env cenv d od og N W :
+  ge1 N = true -> all_groups od = Ok og ->
+  (forall l qc, In (l, qc) d -> circuit_ok qc) ->
+  (forall l gs, In (l, gs) og -> exists qc, alookup d l = Some qc /\ forall g, In g gs -> group_ok qc g) ->
+  (forall s, In s W -> sample_ok env (map (fun b => nth b cenv []) (bases_by_partition d)) d (s_ids s)) ->
+  exists dd coeffs, generate gh gsx env cenv (CDict d) (ODict od) N W = Ok (OutDict dd, coeffs).
+Proof.
+  intros HN Hog Hd Hg HW.
+  destruct (mapping_by_partition_total d) as (M & HM).
+  { intros l qc x Hin Hx. destruct (Hd l qc Hin) as (_ & H). now apply H. }
+  unfold generate. rewrite HN. cbn [negb]. rewrite HM. cbn [res_bind]. rewrite Hog. cbn [res_bind].
+  set (C := map (fun b => nth b cenv []) (bases_by_partition d)) in *.
+  assert (Hcore : exists r, core gh gsx env C (table_of d M) og W = Ok r).
+  { unfold core.
+    destruct (mapM_total (fun s : sample =>
+                res_bind (chosen_coeffs C (s_ids s)) (fun cs =>
+                res_bind (mapM (per_label gh gsx env (table_of d M) (s_ids s)) og) (fun row =>
+                Ok ((coeff_value (total_weight W) (kappa_all C) (s_w s) cs, s_t s), row)))) (sort_samples W)) as (rows & Hrows).
+    - intros s Hs. assert (HsW : In s W) by (eapply Permutation_in; [apply Permutation_sym, sort_perm|exact Hs]).
+      destruct (HW s HsW) as ((cs & Hcs) & Hr). rewrite Hcs. cbn [res_bind].
+      destruct (mapM_total (per_label gh gsx env (table_of d M) (s_ids s)) og) as (row & Hrow).
+      + intros [l gs] Hl. destruct (Hg l gs Hl) as (qc & Hq & Hgs).
+        destruct (table_lookup_conv d M l qc HM Hq) as (ids & sfx & Hscan & Htab).
+        unfold per_label. cbn [fst snd]. rewrite Htab. cbn [pi_sfx pi_qc pi_ids].
+        pose proof (alookup_In d l qc Hq) as Hin. destruct (Hd l qc Hin) as (Hreg & Hx).
+        assert (Hall : forall x, In x (mdata qc) -> In x (all_instrs d))
+          by (intros x Hxx; unfold all_instrs; apply in_flat_map; exists (l, qc); auto).
+        destruct (project_total (s_ids s) sfx) as (ms & Hms).
+        { intros k Hk. destruct (mapping_scan_spec _ _ _ _ Hscan) as (_ & -> & _).
+          unfold suffixes in Hk. apply in_flat_map in Hk as (x & Hxin & Hk).
+          destruct (suffix_of x) as [[k'|]|] eqn:E; [|destruct Hk|destruct Hk]. destruct Hk as [<-|[]].
+          apply cut_of_suffix in E as (b & Hc). destruct (Hr x k' b (Hall x Hxin) Hc) as (m & Hm & _). eauto. }
+        rewrite Hms. cbn [res_bind].
+        apply mapM_total. intros g Hgin. destruct (Hgs g Hgin) as (Hw & Hi).
+        eexists. apply build1_total; [|exact Hreg|exact Hw|exact Hi].
+        apply (scan_valid env (mdata qc) ids sfx (s_ids s) ms Hscan Hms).
+        * intros x Hxin. apply (Hx x Hxin).
+        * intros x k b Hxin Hc. apply (Hr x k b (Hall x Hxin) Hc).
+      + rewrite Hrow. cbn [res_bind]. eexists; reflexivity.
+    - rewrite Hrows. cbn [res_bind]. eexists; reflexivity. }
+  destruct Hcore as ([dd cf] & ->). cbn [res_bind fst snd]. eauto.
+Qed.
+
+(* "one coefficient per DISTINCT joint map": for a dictionary (distinct keys) with positive weights the total is
+   positive (so the division in the coefficient formula is a real one) and the sorted samples still have distinct keys *)
+Theorem coeffs_distinct gh gsx env C table og W out coeffs :
+  core gh gsx env C table og W = Ok (out, coeffs) ->
+  NoDup (map s_ids W) -> W <> [] -> (forall s, In s W -> (0 < s_w s)%Q) ->
+  length coeffs = length W /\
+  NoDup (map s_ids (sort_samples W)) /\
+  (0 < total_weight W)%Q /\
+  Forall2 (coeff_ok C (total_weight W)) (sort_samples W) coeffs.
+Proof.
+  intros Hc Hnd Hne Hpos. pose proof (core_coeffs _ _ _ _ _ _ _ _ _ Hc) as HF.
+  split; [rewrite <- (Forall2_length' _ _ _ HF); apply sort_length|].
+  split; [eapply Permutation_NoDup; [apply Permutation_map, sort_perm|exact Hnd]|].
+  split; [rewrite total_weight_eq; now apply sumQ_pos|exact HF].
+Qed.
+
+(* section 8 tied together on the public model function: budget = inf, bases = those of the problem, dictionary =
+   final_sort of the C04 model's result on the probabilities of exactly those bases *)
+Theorem generate_inf_dict gh gsx env cenv d od perms tape r dd coeffs :
+  let C := map (fun b => nth b cenv []) (bases_by_partition d) in
+  let W := of_wdict (Weights.final_sort r) in
+  (forall v, In v C -> ~ (kappa_of v == 0)%Q) ->
+  Forall (fun v => exists x, In x v /\ (Facts.nonzero_atol < x)%Q) (probs_of C) ->
+  Weights.gen_weights (probs_of C) perms (Weights.PInf) tape = Some (Ok r) -> r <> [] ->
+  generate gh gsx env cenv (CDict d) (ODict od) (of_num Weights.PInf) W = Ok (OutDict dd, coeffs) ->
+  length coeffs = length r /\
+  (sumQ (map (fun c => Qabs (fst c)) coeffs) == kappa_all C)%Q /\
+  Forall2 (fun s c => exists cs, chosen_coeffs C (s_ids s) = Ok cs /\ qsign (fst c) = qsign (prodQ cs))
+          (sort_samples W) coeffs /\
+  (RoundtripP.no_subcutoff_map C ->
+   Forall2 (fun s c => exists cs, chosen_coeffs C (s_ids s) = Ok cs /\ (fst c == prodQ cs)%Q) (sort_samples W) coeffs).
+Proof.
+  intros C W Hk Hbig Hg Hne H.
+  destruct (generate_dict_inv _ _ _ _ _ _ _ _ _ H) as (_ & M & og & dd' & _ & _ & Hc & Hr).
+  cbn [fst snd] in *. inversion Hr; subst dd'. fold C in Hc.
+  destruct (inf_budget_coefficients gh gsx env C (table_of d M) og perms tape r dd coeffs Hk Hbig Hg Hne Hc) as (H1 & H2 & H3).
+  repeat (split; [assumption|]). intros Hno.
+  exact (proj2 (inf_budget_exact gh gsx env C (table_of d M) og perms tape r dd coeffs Hk Hbig Hno Hg) Hc).
 Qed.
